@@ -21,7 +21,7 @@ def returnable (fs : Fs) (r : Rd) (x : Item) : Bool :=
   match x.lineView with
   | none => true
   | some (text, _, _, _, _) =>
-    !((stringReplaceMap text).1.contains ';') &&
+    !((stringReplaceMap text true).1.contains ';') &&
     (!(includeRe text).isSome || (resolveInclude fs r text).isMissing)
 
 def Rd.push (r : Rd) (x : Item) : Rd := { r with fifo := x :: r.fifo }
@@ -40,7 +40,7 @@ theorem nextRawFuel_pos (r : Rd) : ∃ n, nextRawFuel r = n + 1 := ⟨_, rfl⟩
 
 theorem splitSemicolon_stable (x : Item) (r : Rd)
     (h : ∀ text l n s e, x.lineView = some (text, l, n, s, e) →
-      (stringReplaceMap text).1.contains ';' = false) :
+      (stringReplaceMap text true).1.contains ';' = false) :
     splitSemicolon x r = (.ok x, r) := by
   unfold splitSemicolon
   cases hv : x.lineView with
@@ -48,13 +48,8 @@ theorem splitSemicolon_stable (x : Item) (r : Rd)
   | some v =>
     obtain ⟨text, l, n, s, e⟩ := v
     have := h text l n s e hv
-    simp only []
-    cases hs : stringReplaceMap text with
-    | mk gl m =>
-      rw [hs] at this
-      simp only [] at this
-      have hm : ¬ (';' ∈ gl) := by simpa using this
-      simp [hm]
+    have hm : ¬ (';' ∈ (stringReplaceMap text true).1) := by simpa using this
+    simp [hm]
 
 theorem next1_push (fs : Fs) (r : Rd) (x : Item) (h : returnable fs r x = true) :
     next1 (r.push x) = (.ok x, r) := by
